@@ -65,6 +65,11 @@ impl Completions {
             let timeout = if shared.polling.set_polling(true) {
                 // Got woken up, so polling without a timeout.
                 Some(Duration::ZERO)
+            } else if shared.has_blocked_futures() {
+                // Futures are waiting for a submission slot, which we'll
+                // make available below by submitting what is queued. Don't
+                // make them wait for a completion that might never come.
+                Some(Duration::ZERO)
             } else {
                 timeout
             };
